@@ -97,4 +97,44 @@ theorem tree_identity (c : Ctx) (ewi : Bool) (v : V) (h : ((effOps c.ov).all (·
 
 end Tree
 
+/-! ### Taggable maps (M7g `EncryptTag`) -/
+section Tagged
+open Evl.EncryptTree Evl.EncryptTag
+
+/-- **A value classified public by its pointer tag is preserved.**  A string under a top-level key
+that a pointer tag names `/k` with a keeping classification (public; or overridden to none), and that
+no other kind of tag touches, comes out as it went in — whatever the other tags do elsewhere in the
+map, in whatever order. -/
+theorem tagged_public_preserved (c : Ctx) (ewi : Bool) (tags : List PTag) (es es' : Items) (k m : Nat)
+    (hf : find k es = some (.leaf (.plain m)))
+    (hk : onlyKept c k tags) (hex : ∃ t ∈ tags, t.path = [k])
+    (h : processTagged c ewi tags es = .filtered (.map es')) : find k es' = some (.leaf (.plain m)) := by
+  obtain ⟨s, es1, hs, he, hv⟩ := processTagged_filtered h
+  injection hv with hv
+  subst hv
+  obtain ⟨f1, m1, c1⟩ := applyTags_key c k m tags _ s hk hs hf (by simp)
+  obtain ⟨v', g1, g2⟩ := filtT_find c s.marks k _ s.es es' he f1
+  have hm : s.marks.contains [k] = true := c1.mpr (Or.inr hex)
+  rw [subMarks_of_heads k s.marks m1, hm] at g2
+  simp only [filtTV, if_true, Option.some.injEq] at g2
+  rw [g1, ← g2]
+
+/-- with every operation overridden to none the very same event is forwarded -/
+theorem tagged_identity (c : Ctx) (ewi : Bool) (tags : List PTag) (es : Items)
+    (h : ((effOps c.ov).all (· = .none)) = true) : processTagged c ewi tags es = .same := by
+  unfold processTagged; simp [h]
+
+/-- non-vacuity -/
+example : onlyKept Evl.C09.demoCtx 4 [{ path := [4], cls := sPublic, op := [] }, { path := [1], cls := sSecret, op := [] }] := by
+  intro t ht hh
+  simp only [List.mem_cons, List.mem_nil_iff, or_false] at ht
+  rcases ht with rfl | rfl
+  · exact ⟨rfl, by decide⟩
+  · simp at hh
+example : ∃ es', processTagged Evl.C09.demoCtx false [{ path := [4], cls := sPublic, op := [] }, { path := [1], cls := sSecret, op := [] }]
+    Evl.C09.demoTagged = .filtered (.map es') ∧ find 4 es' = some (.leaf (.plain 5)) ∧ find 1 es' = some (.leaf .redacted) :=
+  ⟨_, rfl, rfl, rfl⟩
+
+end Tagged
+
 end Evl.C10
